@@ -48,8 +48,9 @@ def main(argv=None) -> int:
             return 0
         return runner.run_check(pid, args.tier, args.seed, args.workers)
     finally:
-        from sim.disk import cleanup_scratch
+        from sim.disk import cleanup_scratch, cleanup_stale
         cleanup_scratch()
+        cleanup_stale()
 
 
 if __name__ == "__main__":
